@@ -1,6 +1,7 @@
 import VerifModel.Driver.Cmp
 import VerifModel.Driver.Cont
 import VerifModel.Driver.Det
+import VerifModel.Driver.Data
 /-
   verifdrv — line-protocol driver: one operation per input line, one canonical
   reply line.  `ERR bad-op` for anything a handler does not recognise.
@@ -8,7 +9,7 @@ import VerifModel.Driver.Det
 open VerifModel
 
 def handlers : List (List String → Option String) :=
-  [Driver.Cmp.handle, Driver.Cont.handle, Driver.Det.handle]
+  [Driver.Cmp.handle, Driver.Cont.handle, Driver.Det.handle, Driver.Data.handle]
 
 def step (line : String) : String :=
   let args := (line.trimAscii.toString.splitOn " ").filter (· ≠ "")
